@@ -3,6 +3,7 @@ from __future__ import annotations
 import torch
 
 from torchtree.core.abstractparameter import AbstractParameter
+from torchtree.core.container import Container
 from torchtree.core.model import CallableModel
 from torchtree.core.utils import process_object, process_objects, register_class
 from torchtree.distributions.distributions import DistributionModel
@@ -258,6 +259,8 @@ class SELBO(CallableModel):
     ) -> None:
         super().__init__(id_)
         self.components = components
+        # listen to the components: a change of their parameters changes this model
+        self.component_models = Container(None, components)
         self.p = p
         self.weights = weights
         self.samples = samples
@@ -290,9 +293,6 @@ class SELBO(CallableModel):
                     log_probs.append((self.p() - q().sum(-1)).mean().unsqueeze(0))
             lp = (self.weights.tensor * torch.cat(log_probs)).sum()
         return lp
-
-    def handle_parameter_changed(self, variable, index, event):
-        pass
 
     def _sample_shape(self) -> torch.Size:
         return self.q.sample_shape
